@@ -185,6 +185,8 @@ def main():
     for (pid_, prop, checks, path, old, new, desc) in P:
         if want and pid_ not in want:
             continue
+        if not want and pid_ in results and "caught_by" in results[pid_]:
+            continue            # resume
         wt = f"/tmp/mw/{pid_}"
         sh(f"git -C /repo worktree remove --force {wt}")
         rc, o = sh(f"git -C /repo worktree add -q {wt} HEAD")
